@@ -636,3 +636,20 @@ def _text_bytes_agreement(ctx, mechs):
                'mechanism can never succeed' % (
                    who, ct, bad_all[0][0] if bad_all else '',
                    term_str(bad_all[0][1])[:80] if bad_all else ''))
+
+
+def run_thorough(ctx):
+    """Dump the whole deduplicated transition table into the evidence."""
+    m, inits = build(ctx.prog)
+    rows = []
+    for (pre, cmd, outs, post), t in sorted(m.rows().items(),
+                                            key=lambda kv: str(kv[0])):
+        rows.append({'state': field(m, pre, 'state'),
+                     'rejections': field(m, pre, 'reject_count'),
+                     'mechanism': m.get(pre, 'current_mech')[0],
+                     'command': cmd, 'outputs': list(outs),
+                     'next': post if isinstance(post, str) else
+                     field(m, post, 'state'),
+                     'authenticated_after': (not isinstance(post, str)) and
+                     m.get(post, 'authenticated') == ('c', True)})
+    ctx.extra['transition_table'] = rows
